@@ -90,6 +90,8 @@ pub fn merge<
 where
     S: Into<Arc<Source<T>>> + Send + Sync,
 {
+    #[cfg(callbag_verif)]
+    use crate::verif_hooks::{AtomicBool, AtomicUsize};
     #[cfg(feature = "tracing")]
     let merge_fn_span = Span::current();
     let sources: Box<[Arc<Source<T>>]> = Vec::from(sources).into_iter().map(|s| s.into()).collect();
